@@ -290,6 +290,17 @@ EXTRA3 = {
     'C20': ' Round 6: E8.update-order (the predicted-parameter buffer is refreshed before any reader in every update()).'}
 
 
+EXTRA4 = {
+    'C03': ' Round 7: ROI boxes beyond either border.',
+    'C06': ' Round 7: the point route of dense models beyond the outermost field samples (padding rule).',
+    'C13': ' Round 7: batches of fields in compose_flows; the first-order derivative tables of every mode (shared T5.first-order).',
+    'C14': ' Round 7: n-D kernel front ends for every stride form (T3.kernels); float64 weight tables (T3.dtype); FFD control grids with per-axis strides (T3.ffd-shape).',
+    'C16': ' Round 7: the normalisation factor together with a mask; mask shapes with N != C.',
+    'C01': ' Round 6: two-cube maps, cube_* / grid_* wrappers, Cube sequence forms (T1.cube-api).',
+    'C08': ' Round 6: affine helper functions, Translation / HomogeneousTransform accessors, part getters of the composites (T6.helpers).',
+    'C09': ' Round 6: DisplacementFieldTransform.fit for every flow representation (T6x.fit).'}
+
+
 def main():
     sys.path.insert(0, HERE)
     props = [json.loads(l) for l in open(os.path.join(HERE, "properties.jsonl"))]
@@ -303,7 +314,7 @@ def main():
             na.append({"property_id": pid, "reason": reason})
             continue
         _, engine, technique, text, ref = ent
-        text = text + EXTRA.get(pid, "") + EXTRA2.get(pid, "") + EXTRA3.get(pid, "")
+        text = text + EXTRA.get(pid, "") + EXTRA2.get(pid, "") + EXTRA3.get(pid, "") + EXTRA4.get(pid, "")
         checks.append({
             "property_id": pid,
             "quick_cmd": f"./check {pid} --tier quick",
